@@ -13,6 +13,7 @@ import FontVerif.Lemmas.IftGlyph
 import FontVerif.Lemmas.IftOrder
 import FontVerif.Lemmas.IftErrors
 import FontVerif.Lemmas.IftPipeline
+import FontVerif.Lemmas.IftGvar
 set_option linter.unusedVariables false
 namespace FontVerif.C18
 open FontVerif FontVerif.Ift
@@ -634,5 +635,61 @@ example :
     let i : PatchInfo := { uri := "a", iftx := false, compat := [1,1,1,1,1,1,1,1,1,1,1,1,1,1,1,1], bit := 0 }
     (prepAll font (fun _ s _ _ => .ok s) [(i, p)]).map (fun ps => ps.map (fun x => (x.2.gids, x.2.tables, patchData TAG_glyf x.2)))
       = some [([1], [TAG_glyf], [(1, [7,7])])] := by rfl
+
+/-! ## gvar (Model/GvarKeyed.lean: the `Gvar::TAG` arm — `font.gvar()`, `patch_offset_array`,
+`Gvar::add_to_font` — as a function `gvarPatch gvarTable patches maxGid` of the one table; tied to the
+real `apply_glyph_keyed_patches` by the `gvar_patch` correspondence group) -/
+
+/-- **gvar_patch_spec.**  If the gvar arm succeeds (emitted table below 4 GiB): the offset type `t` of
+the new table is short or long, it can address the new total, and it is the old type whenever that
+still fits (widening only when needed).  When gvar's glyph count matches maxp, the new table reads
+back (`gvarRead`, the reader used on the input) with the same axis count, shared tuple count and
+glyph count, the long-offsets flag set iff `t` is long, the SAME shared tuples, `maxGid+2` ascending
+offsets from 0 to the length of the data area, every listed gid ≤ maxGid, and for EVERY gid the
+glyph variation data is the first-wins patch data (padded to even under short offsets), else the
+old data. -/
+theorem gvar_patch_spec (b : Bytes) (gps : List GlyphPatches) (m : Nat) (out : Bytes)
+    (h : gvarPatch (some b) gps m = .ok out) (hsz : out.length < 2 ^ 32) :
+    ∃ v t, gvarRead b = some v ∧ (t = .long ∨ t = .shortDivByTwo) ∧
+      (∃ repl total, dedup TAG_gvar gps = .ok repl ∧ totalDataSize (gvarArray b v) repl m = .ok total ∧
+          total ≤ t.maxRepresentable ∧ (total ≤ (gvarCurType v).maxRepresentable → t = gvarCurType v)) ∧
+      (v.glyphCount = m + 1 →
+        ∃ v', gvarRead out = some v' ∧ v'.axisCount = v.axisCount ∧ v'.sharedTupleCount = v.sharedTupleCount ∧
+          v'.glyphCount = v.glyphCount ∧ v'.long = decide (t = .long) ∧
+          gvarSharedTuples out v' = gvarSharedTuples b v ∧
+          v'.offsets.length = m + 2 ∧ v'.offsets.getD 0 0 = 0 ∧
+          v'.offsets.getD (m + 1) 0 = (out.drop v'.arrayOffset).length ∧
+          v'.offsets.Pairwise (· ≤ ·) ∧
+          (∀ g d, firstWins TAG_gvar gps g = some d → g ≤ m) ∧
+          ∀ g, g ≤ m → glyphAt v'.offsets (out.drop v'.arrayOffset) g =
+            match firstWins TAG_gvar gps g with
+            | some d => padTo t d
+            | none => glyphAt v.offsets (b.drop v.arrayOffset) g) :=
+  gvarPatch_spec b gps m out h hsz
+
+/-- **gvar_patch_order_independent.**  The new gvar table does not depend on the order of patches
+that agree on shared gids (one call; across calls the offset width may differ — known finding
+C18-offset-width-history-dependent). -/
+theorem gvar_patch_order_independent (g : Option Bytes) (gps gps' : List GlyphPatches) (m : Nat)
+    (out : Bytes) (hp : gps.Perm gps') (ha : Agree TAG_gvar gps) (h : gvarPatch g gps m = .ok out) :
+    gvarPatch g gps' m = .ok out :=
+  gvarPatch_perm g gps gps' m out hp ha h
+
+/-- **gvar_without_glyph_data_is_error** (records known finding C18-gvar-all-glyph-data-empty in the
+model): when the patched gvar would carry no glyph variation data at all the arm answers
+`SerializationError(NONE)` instead of emitting the table. -/
+theorem gvar_without_glyph_data_is_error (b : Bytes) (v : GvarView) (t : OffsetType) (offs : Bytes)
+    (hlen : ¬ (t = gvarCurType v ∧ offs.length ≠ (v.glyphCount + 1) * v.width)) :
+    gvarAssemble b v t [] offs = .error (.serializationError 0) := by
+  unfold gvarAssemble
+  rw [if_neg hlen]
+  simp
+
+/-- non-vacuity: a 2-glyph short gvar (1 axis, 1 shared tuple), gid 0 := 3 bytes (padded to 4) -/
+example :
+    let gv : Bytes := [0,1,0,0, 0,1, 0,1, 0,0,0,26, 0,2, 0,0, 0,0,0,28, 0,0, 0,1, 0,2, 0xAA,0xBB, 1,2,3,4]
+    let gp : GlyphPatches := { glyphCount := 1, tables := [TAG_gvar], gids := [0], offsets := [1, 4], raw := [9,7,7,7] }
+    gvarPatch (some gv) [gp] 1 =
+      .ok [0,1,0,0, 0,1, 0,1, 0,0,0,26, 0,2, 0,0, 0,0,0,28, 0,0, 0,2, 0,3, 0xAA,0xBB, 7,7,7,0, 3,4] := by rfl
 
 end FontVerif.C18
